@@ -8,6 +8,7 @@
 EXTENDS ExprOps, TLC, Json
 
 CONSTANTS Triples,     \* set of <<a, b, c>> operand values
+          Pool,        \* operand values of the two-operand family (every ordered pair)
           Export
 
 VARIABLES e,           \* token sequence
@@ -48,7 +49,15 @@ Unaries == UNION {
 Chains == { <<Tv(x[1]), To(r1), Tv(x[2]), To(r2), Tv(x[3]), To(r3), Tv(x[1])>>
             : r1 \in {"<", "<=", "=="}, r2 \in {"<", ">=", "!="}, r3 \in {">", "is"}, x \in Triples }
 
-AllExprs == Pairs \cup Unaries \cup Chains
+\* every binary operator and both membership forms over every ORDERED pair of the pool: NULL on either side, TRUE
+\* memberships, whole decimal quotients, int against decimal, string against int, ... (the triples fix the order of
+\* their operands; this family does not)
+Binaries == { <<Tv(a), To(o), Tv(b)>> : o \in BIN \cup {"in"}, a \in Pool, b \in Pool }
+\* n-ary and/or: the third clause is reached exactly when the first two do not decide
+Bools3 == { <<Tv(a), To(o), Tv(b), To(o), Tv(c)>> : o \in {"and", "or"},
+            a \in {Bool(TRUE), Bool(FALSE)}, b \in {Bool(TRUE), Bool(FALSE)}, c \in {Bool(TRUE), Bool(FALSE), IntV(1)} }
+
+AllExprs == Pairs \cup Unaries \cup Chains \cup Binaries \cup Bools3
 
 Init == e \in AllExprs /\ phase = "new"
 Evaluate == phase = "new" /\ phase' = "done" /\ UNCHANGED e
